@@ -236,6 +236,8 @@ class GeckoAsyncSpaMan(ABC, AsyncTasks):
 
     async def __aexit__(self, *exc_info) -> None:
         self.cancel_key_tasks("SPAMAN")
+        # Disconnect facade and spa so that the connection's socket is closed
+        await self.async_reset()
         await self._handle_event(GeckoSpaEvent.SPA_MAN_EXIT, exc_info=exc_info)
         await AsyncTasks.__aexit__(self, exc_info)
 
